@@ -106,6 +106,9 @@ def _step(cfg):
                 asm.append(z3.ULT(raddr, d))
             ob.append((f"read{i} returns the row as left by the latest completed write (same-cycle writes not visible)",
                        z3.Implies(o.done(f"rd{i}"), o.out(f"rd{i}", "data") == _rd(rows, raddr))))
+            ob.append((f"read{i} is total: it runs whenever it is called", o.done(f"rd{i}") == o.en(f"rd{i}")))
+        for j in range(nw):
+            ob.append((f"write{j} is total: it runs whenever it is called (an ideal memory never refuses a write)", wdone[j] == o.en(f"wr{j}")))
         after = []
         for r in range(d):
             cur = rows[r]
